@@ -55,6 +55,7 @@ Definition run_model (c : bool * Z * Z * wstate payload) : observed :=
   | Err e => (err_name e, None)
   | Ok (Complete f) => ("", Some (print_file f))
   | Ok (Died hw sl e) => (err_name e, Some (print_outcome (Died hw sl e)))
+  | Ok (Raised f e) => (err_name e, Some (print_file f))
   end.
 
 Definition observed_eqb (a b : observed) : bool :=
@@ -67,27 +68,29 @@ Definition check_case (c : (bool * Z * Z * wstate payload) * observed) : bool :=
    validator of the written bytes; and the guard of C08_write_wf ------------- *)
 From T4V Require Import C08.Spec C08.Check.
 
-Definition final_state (c : bool * Z * Z * wstate payload) : option (wstate payload) :=
+Definition final_state (c : bool * Z * Z * wstate payload)
+  : option (option (list (Z * Z)) * wstate payload) :=
   let '(skip_dedup, u0, u1, w) := c in
   match prune payload_eqb skip_dedup (w_surfs w) (w_vols w) u0 u1 with
   | Err _ => None
-  | Ok (surfs, vols) =>
-      Some (mkW surfs vols (w_skipped w) (w_cells w) (w_mats w) (w_rescaled w) (w_bcs w)
-                (w_skip_comp w) (w_skip_geomcomp w) (w_skip_bc w))
+  | Ok (surfs, vols, ren) =>
+      Some (ren, mkW surfs vols (w_skipped w) (w_cells w) (w_mats w) (w_rescaled w) (w_bcs w)
+                     (w_skip_comp w) (w_skip_geomcomp w) (w_skip_bc w))
   end.
 
 (* hypotheses of C08_write_wf hold on the tables handed to the writers *)
 Definition in_guard (c : bool * Z * Z * wstate payload) : bool :=
-  match final_state c with Some w => wf_stateb w | None => false end.
+  match final_state c with Some (_, w) => wf_stateb w | None => false end.
 
 (* validator verdict (true = structurally valid) of the file the real run wrote *)
 Definition check_verdict (c : (bool * Z * Z * wstate payload) * observed * bool) : bool :=
   let '(inp, _, valid) := c in
   match final_state inp with
   | None => true
-  | Some w =>
-      match write_file w with
+  | Some (ren, w) =>
+      match write_file ren w with
       | Complete f => Bool.eqb (wf_fileb f) valid
+      | Raised f _ => Bool.eqb (wf_fileb f) valid
       | Died _ _ _ => negb valid
       end
   end.
